@@ -207,6 +207,19 @@ fn check_observer(env: &Env, op: &Op) -> Result<(), Failure> {
             return Err(mk_fail(op, format!("a read handle that read 3 bytes, seeked to the middle and read to the end delivers {:?} but the PhysicalFS handle delivers {:?}", a.as_ref().map(|(h, r)| (h.len(), r.len())), b.as_ref().map(|(h, r)| (h.len(), r.len())))));
         }
     }
+    // listings are Iterators: consumed through nth/skip/step_by/last/count, through the path API and
+    // through the FileSystem trait itself, they deliver the same names as plain iteration
+    if let (Op::ReadDir(path), Some(Node::Dir)) = (op, env.model.get(op.target())) {
+        use vfs::FileSystem;
+        let raw = EmbeddedFS::<Fixture>::new();
+        let r = guarded(|| {
+            crate::util::listing_iterator_contract(&|| raw.read_dir(path).ok().map(|i| Box::new(i) as Box<dyn Iterator<Item = String>>))?;
+            let dp = at(&env.emb, path).map_err(|e| e.to_string())?;
+            crate::util::listing_iterator_contract(&|| dp.read_dir().ok().map(|i| Box::new(i.map(|c| c.filename())) as Box<dyn Iterator<Item = String>>))
+        })
+        .map_err(|m| mk_fail(op, format!("listing use panicked: {}", m)))?;
+        r.map_err(|m| mk_fail(op, format!("the listing iterator of the embedded filesystem: {}", m)))?;
+    }
     // reference 2: PhysicalFS on the same folder
     match (&e, &p) {
         (Outcome::Ok(a), Outcome::Ok(b)) => {
